@@ -436,6 +436,12 @@ func typeFacts(t types.Type, v Value) []*smt.Term {
 		}
 	case StrV:
 		out = append(out, smt.Le(smt.IntC(0), x.Len), smt.Le(x.Len, smt.BigC(maxLen)), smt.Le(smt.IntC(0), x.Off), smt.Le(x.Off, smt.BigC(maxLen)))
+		if x.Arr.Op == "var" {
+			// every element of a string's contents is a byte
+			a := smt.Var("a!byte", smt.Int)
+			sel := smt.Select(x.Arr, a)
+			out = append(out, smt.Forall([]*smt.Term{a}, smt.And(smt.Le(smt.IntC(0), sel), smt.Le(sel, smt.IntC(255))), sel))
+		}
 	case SeqV:
 		out = append(out, smt.Le(smt.IntC(0), x.Len))
 	case SliceV:
